@@ -9,5 +9,5 @@ CONSTANTS
   PreOps <- PreNone
   SibFields <- NoFields
   TamperMax = 11
-INVARIANTS TypeOK PRedactedIffMismatch PRedactedForm PIntact PIdSigIff PSigsTogether Emit
+INVARIANTS TypeOK PRedactedIffMismatch PRedactedNoop PRedactedForm PIntact PIdSigIff PSigsTogether Emit
 CHECK_DEADLOCK FALSE
